@@ -126,6 +126,61 @@ def show_def(d):
 
 
 # ---------------------------------------------------------------------------------------------
+# the generator's input as `go generate` names it
+
+def path_stage(ctx, tlgen):
+    """telegram/generate.go runs `tlgen ../schemes/api_latest.tl .` from telegram/: the shipped input is reached through a
+    relative path and, in this repository, through a symbolic link.  The tool must accept its input under every name the
+    file system gives it - the regular file, a relative path with `..`, a symlink to it (relative and absolute target, a
+    chain of two), a path through a symlinked directory - and generate byte-identical files each time."""
+    import shutil
+    scratch = ctx.work + "/paths"
+    shutil.rmtree(scratch, ignore_errors=True)
+    os.makedirs(scratch + "/schemes")
+    os.makedirs(scratch + "/telegram")
+    real = C.REPO + "/schemes/" + SHIPPED_INPUT
+    shutil.copy(real, scratch + "/schemes/" + SHIPPED_INPUT)
+    os.symlink("./" + SHIPPED_INPUT, scratch + "/schemes/api_latest.tl")               # as shipped: relative target
+    os.symlink(scratch + "/schemes/" + SHIPPED_INPUT, scratch + "/schemes/abs_link.tl")  # absolute target
+    os.symlink("api_latest.tl", scratch + "/schemes/chain.tl")                           # link to a link
+    os.symlink(scratch + "/schemes", scratch + "/dirlink")                               # directory reached through a link
+    forms = [("regular-file", scratch + "/telegram", "../schemes/" + SHIPPED_INPUT),
+             ("as-go-generate(symlink,relative)", scratch + "/telegram", "../schemes/api_latest.tl"),
+             ("symlink-absolute-target", scratch, scratch + "/schemes/abs_link.tl"),
+             ("symlink-chain", scratch + "/telegram", "../schemes/chain.tl"),
+             ("through-symlinked-directory", scratch, "dirlink/" + SHIPPED_INPUT),
+             ("dot-segments", scratch + "/telegram", "./../telegram/../schemes/./" + SHIPPED_INPUT)]
+    shipped_link = C.REPO + "/schemes/api_latest.tl"
+    if os.path.lexists(shipped_link):
+        forms.append(("the-tree's-own-schemes/api_latest.tl", C.REPO + "/telegram", "../schemes/api_latest.tl"))
+    ref = None
+    st = {"forms": [f[0] for f in forms], "identical": 0}
+    for i, (name, cwd, arg) in enumerate(forms):
+        d = "%s/out%d" % (scratch, i)
+        os.makedirs(d)
+        rc, o = C.sh([tlgen, arg, d], cwd=cwd, timeout=300)
+        files = sorted(os.listdir(d))
+        rep = {"kind": "input-path", "form": name, "cwd": cwd.replace(scratch, "<scratch>"), "argument": arg.replace(scratch, "<scratch>"),
+               "how": "in a scratch directory holding schemes/%s and the links named by the form, run `tlgen <argument> <outdir>` from <cwd>" % SHIPPED_INPUT}
+        if rc != 0 or len(files) != 5:
+            C.violation(ctx, "input-path:rejected:" + name,
+                        "tlgen does not generate from its shipped input when it is named as %s (`tlgen %s` from %s): rc=%d %s"
+                        % (name, rep["argument"], rep["cwd"], rc, o.strip()[-300:]), dict(rep, expected="5 generated files", got=o.strip()[-600:]))
+            continue
+        cur = {n: open(d + "/" + n, "rb").read() for n in files}
+        if ref is None:
+            ref = cur
+        if cur == ref:
+            st["identical"] += 1
+        else:
+            C.violation(ctx, "input-path:different-output:" + name,
+                        "tlgen generates other files from the same schema when it is named as %s" % name,
+                        dict(rep, expected="byte-identical files", got=[n for n in files if cur.get(n) != ref.get(n)]))
+    shutil.rmtree(scratch, ignore_errors=True)
+    return st
+
+
+# ---------------------------------------------------------------------------------------------
 # compile + reflect stage
 
 STUB = """package telegram
@@ -543,6 +598,7 @@ def run(ctx):
 
     cst = compile_stage(ctx, tlgen, todo, texts, model, meta)
     C.log("compile stage done %.1fs" % (time.time() - t_start))
+    cst["input_paths"] = path_stage(ctx, tlgen)
 
     # report one violation per category first (the first five are printed)
     cats = {}
